@@ -266,11 +266,10 @@ func vf12Run(data []byte, start int64, bufSize, frag int, fseed uint64) (out []v
 		if err != nil {
 			return out, "parse"
 		}
-		cp := make([][]byte, len(args))
-		for i, a := range args {
-			cp[i] = append([]byte{}, a...)
-		}
-		out = append(out, vf12Dec{cmd, cp, start + incr})
+		// keep the decoder's own slices, exactly as parseAofCommand does (the commands wait in
+		// sendBuf / the batch queue while the parser decodes on): an argument must still hold
+		// its bytes when the whole stream has been decoded, not only right after its decode
+		out = append(out, vf12Dec{cmd, args, start + incr})
 	}
 }
 
@@ -1026,6 +1025,19 @@ func TestVerifC12(t *testing.T) {
 		}
 		s.Count("argsize_multi_megabyte")
 		x.stream("multi_megabyte", x.startOffset(), x.emitCmds(cs, i%2 == 1), vf12Want(cs), nconf)
+	}
+
+	// ---- several large arguments in flight together (decoded values are retained by the
+	// consumer: a later large value must not disturb an earlier one)
+	for i := 0; i < vfutil.Scale(1, 3); i++ {
+		cs := []vf12Cmd{
+			{[]vf12Arg{{data: []byte("SET")}, {data: []byte("big:a")}, {rep: true, c: 'a', n: r.Range(3<<20, 4<<20)}}},
+			{[]vf12Arg{{data: []byte("SET")}, {data: []byte("small")}, {data: vf12Content(r, 20)}}},
+			{[]vf12Arg{{data: []byte("MSET")}, {data: []byte("big:b")}, {rep: true, c: 'b', n: r.Range(2<<20, 3<<20)}, {data: []byte("big:c")}, {rep: true, c: 0xfe, n: r.Range(1<<20, 2<<20)}}},
+			{[]vf12Arg{{data: []byte("SET")}, {data: []byte("mid")}, {rep: true, c: 'm', n: r.Range(60000, 70000)}}},
+		}
+		s.Count("argsize_several_multi_megabyte")
+		x.stream("several_multi_megabyte", x.startOffset(), x.emitCmds(cs, false), vf12Want(cs), nconf)
 	}
 
 	// ---- malformed and non-canonical streams (model/implementation comparison;
